@@ -439,7 +439,8 @@ class DavSys:
             info["status"] = resp.status
         elif kind == "query":
             _, coll = op
-            resp = self.req("REPORT", self.url(coll), dict(dav.XML_CT, Depth="1"), dav.calquery_body(dav.ALL_VCALENDAR, [dav.P_GETETAG]))
+            flt = '<C:comp-filter name="VCALENDAR"><C:comp-filter name="VEVENT"><C:prop-filter name="SUMMARY"/></C:comp-filter></C:comp-filter>'
+            resp = self.req("REPORT", self.url(coll), dict(dav.XML_CT, Depth="1"), dav.calquery_body(flt if "queries" in self.cfg.features else dav.ALL_VCALENDAR, [dav.P_GETETAG]))
             info["status"] = resp.status
         else:
             raise ValueError("unknown op %r" % (op,))
@@ -1008,8 +1009,8 @@ class DavSys:
 
     # -- C07: sync-collection ---------------------------------------------
 
-    def sync_report(self, coll, token):
-        r = self.req("REPORT", self.url(coll), dict(dav.XML_CT, Depth="1"), dav.sync_body(token, [dav.P_GETETAG]))
+    def sync_report(self, coll, token, props=None):
+        r = self.req("REPORT", self.url(coll), dict(dav.XML_CT, Depth="1"), dav.sync_body(token, [dav.P_GETETAG] if props is None else props))
         st = dav.effective_status(r, only_with_error=True)
         if st != 207:
             return st, None, None, r
@@ -1026,7 +1027,7 @@ class DavSys:
             if x.status == 404:
                 changes[nm] = "404"
             elif x.status in (None, 200):
-                changes[nm] = x.prop_text(dav.P_GETETAG)
+                changes[nm] = x.prop_text(dav.P_GETETAG) if props is None else "present"
             else:
                 changes[nm] = "status:%s" % x.status
         if dups:
@@ -1076,6 +1077,15 @@ class DavSys:
                     self.violation("C07", "wrong-change-list:%s:%s" % (label, "+".join(kinds)), "sync report lists %s, expected %s" % (got, expected), {"op": op, "token": tok, "old": old, "new": snap})
                 if newtok != cur_token:
                     self.violation("C07", "returned-token-not-current:%s" % label, "report returned token %r, the collection's sync-token property is %r" % (newtok, cur_token), {"op": op})
+                if rep_i % 2 == 0 and rep_i <= 2:
+                    # the same report in other request shapes: no property asked for at all; a property no member has
+                    for shape, plist in (("no-props", []), ("unknown-prop", ["{http://example.com/ns}nope"])):
+                        st2, ch2, tok2, r2 = self.sync_report(coll, tok, props=plist)
+                        want = {k: ("404" if v == "404" else "present") for k, v in expected.items()}
+                        got2 = None if ch2 is None else {self.canon_name(k): v for k, v in ch2.items()}
+                        if st2 != 207 or got2 != want or tok2 != cur_token:
+                            self.violation("C07", "request-shape:%s:%s" % (shape, "status-%s" % st2 if st2 != 207 else ("wrong-members" if got2 != want else "wrong-token")),
+                                           "sync-collection asking for %s lists %s (token %s), expected %s (token %s)" % (shape, got2, tok2, want, cur_token), {"op": op, "token": tok})
             if cur_token and all(t != cur_token for (t, _) in toks):
                 toks.append((cur_token, snap))
             # foreign tokens
@@ -1170,6 +1180,9 @@ def default_ops(s):
     if "nope" in cfg.features:
         ops.append(("put", "nope", "a.ics", cfg.bodies["cal"][0]))
         ops.append(("delete", "nope", "a.ics"))
+    if "queries" in cfg.features and s.model.get("cal") is not None:
+        # a calendar-query whose filter has index keys (with --index-threshold 0 the first one builds the index)
+        ops.append(("query", "cal"))
     if "restart" in cfg.features:
         ops.append(("restart",))
     return ops
